@@ -8,6 +8,9 @@ def view(pc, rels):
     out = []
     for r in rels:
         right = getattr(r, 'right', '')
+        if r.left not in pc.ppos:
+            from core import Disagreement
+            raise Disagreement('relations() names %r, which is not a property of the context' % (r.left,))
         out.append('%s:%d:%s:%d' % (r.kind, pc.ppos[r.left], pc.ppos[right] if right in pc.ppos else '-', r.order))
     return ' '.join(out) if out else '-'
 
